@@ -13,6 +13,7 @@ DECIDED += "; R5 Barrier::wait performs one receive per call and hands the repor
 DECIDED += "; R3 re-derived: every matching trigger is reported whatever the reaction (Panic reports, then panics), and a Noop barrier reports and returns without awaiting"
 DECIDED += '; R6 the corruption hook installed for a host step is only read by fire_corruption (every corrupted read of the step reaches the barriers)'
 DECIDED += '; R7 the corruption hook is not called in place from code that holds the Fs mutex (recorded finding D62)'
+DECIDED += "; R4 also: Drop for Barrier unregisters on every path (also while unwinding); a nested fs scope restores the outer scope's corruption hook (shared C01-R8)"
 ASSUMPTIONS = ["tokio unbounded mpsc never rejects a send while the receiver lives"]
 
 BR = "turmoil::barriers::BarrierRepo::"
